@@ -122,6 +122,9 @@ def generate(rng, tier):
                   "verb": rng.choice(VERBS), "path": rng.choice(["/a", "/b/c", "/", "/q"]),
                   "own_id": (f"caller-{k}" if rng.random() < 0.2 else None),
                   "net": gen_net(rng, fault_rate, kinds)}
+            if op["own_id"] is not None and rng.random() < 0.25:
+                # the caller's headers are a mapping of the caller's own type (case-insensitive names)
+                op["hdr_ci"] = True
             if rng.random() < 0.3:
                 op["hdr"] = {"X-Other": f"v{k}"}
             elif rng.random() < 0.25 and op["own_id"] is None:
@@ -255,6 +258,8 @@ def do_request(objs, spec, op):
     hdrs = dict(op.get("hdr") or {})
     if op.get("own_id") is not None:
         hdrs["X-Request-ID"] = op["own_id"]
+        if op.get("hdr_ci"):
+            hdrs = hw.CIHeaders({k.lower(): v for k, v in hdrs.items()})
     kw = {"headers": hdrs} if (hdrs or (isinstance(op["k"], int) and op["k"] % 2 == 0)) else {}
     if spec["wrappers"][op["w"] % len(objs)]["kind"].startswith("mcaller"):
         return w.simcall(op["verb"], op["path"], kw)
